@@ -1,10 +1,16 @@
 package kaisim
 
-import "pgregory.net/rapid"
+import (
+	"testing"
+
+	"pgregory.net/rapid"
+)
 
 type PropDef struct {
 	Gen     func(t *rapid.T, thorough bool) *Script
 	Oracles func() []Oracle
+	// Post: optional extra executions of the same script (e.g. other map-iteration seeds)
+	Post func(t *testing.T, s *Script, ors []Oracle, res *Result)
 }
 
 var Props = map[string]PropDef{}
@@ -90,6 +96,31 @@ func init() {
 	Props["C15"] = PropDef{
 		Gen:     GenClosedSystemScript,
 		Oracles: func() []Oracle { return []Oracle{&LivelockOracle{}} },
+	}
+	Props["C09"] = PropDef{
+		Gen: func(t *rapid.T, thorough bool) *Script {
+			o := mixedOpts(thorough)
+			o.Faults, o.BindFailures, o.MIG = false, false, false
+			o.Hierarchy, o.MaxWorkloads, o.MaxCycles = 3, 12, 3
+			return GenScript(t, "C09", "queue-trees", o)
+		},
+		Oracles: func() []Oracle { return []Oracle{&FairShareOracle{}} },
+		Post: func(t *testing.T, s *Script, ors []Oracle, res *Result) {
+			base := ors[0].(*FairShareOracle).Shares
+			for _, delta := range []uint64{0x9E3779B9, 0x7F4A7C15F39CC060} {
+				s2 := *s
+				s2.MapSeed = s.MapSeed ^ delta
+				if s2.MapSeed == 0 {
+					s2.MapSeed = 1
+				}
+				o2 := &FairShareOracle{}
+				RunScript(t, &s2, []Oracle{o2}, false)
+				res.Probes["c09_order_variants_compared"]++
+				if d := CompareShares(base, o2.Shares); d != "" {
+					res.Violations = append(res.Violations, Violation{Prop: "C09", Rule: "order_dependence", Detail: "fair share depends on map iteration order: " + d, Cycle: 1})
+				}
+			}
+		},
 	}
 	Props["C02"] = PropDef{
 		Gen: func(t *rapid.T, thorough bool) *Script {
